@@ -1,9 +1,12 @@
 package main
 
 import (
+	"bytes"
+	"encoding/json"
 	"fmt"
 	"math"
 	"os"
+	"os/exec"
 	"runtime"
 	"sort"
 	"strings"
@@ -358,6 +361,43 @@ func concSchedules(seed uint64) []schedule {
 			return outcome, v("C14", "a call racing with Close returned neither a correct result nor ErrClosed", res, steps...)
 		}
 		return outcome, nil
+	}})
+	// ---- C14: a rotation queued by the last append, not yet started when Close runs ----
+	out = append(out, schedule{name: "close-vs-queued-rotation", props: []string{"C14"}, run: func() (string, []Violation) {
+		e, err := newConcEnv(150, 0)
+		if err != nil {
+			return "setup-err", nil
+		}
+		defer e.close()
+		steps := []string{"segment size 150", "StoreLogs fills the segment; the rotation goroutine is parked before taking the lock",
+			"Close() runs to completion (twice)", "the rotation goroutine is resumed", "FirstIndex/StoreLogs are called"}
+		e.p.arm("runRotate:before-lock")
+		big := &raft.Log{Index: 1, Term: 1, Data: []byte(strings.Repeat("a", 200))}
+		if err := e.w.StoreLogs([]*raft.Log{big}); err != nil {
+			return "setup-err " + err.Error(), nil
+		}
+		if !e.p.waitParked("runRotate:before-lock", concTimeout) {
+			return "rotation-not-triggered", nil
+		}
+		c1 := goCall(func() string { return walClass(e.w.Close()) }).wait(concTimeout)
+		c2 := goCall(func() string { return walClass(e.w.Close()) }).wait(concTimeout)
+		nev := e.d.NumEvents()
+		e.p.release("runRotate:before-lock")
+		time.Sleep(150 * time.Millisecond) // a panic in the rotation goroutine kills this (child) process here
+		_, ferr := e.w.FirstIndex()
+		serr := e.w.StoreLogs([]*raft.Log{{Index: 2, Term: 1, Data: []byte("late")}})
+		outcome := fmt.Sprintf("close=%s,%s first=%s store=%s io-after-close=%d", c1, c2, walClass(ferr), walClass(serr), e.d.NumEvents()-nev)
+		var viols []Violation
+		if c1 == "blocked" || c2 == "blocked" {
+			viols = append(viols, v("C14", "Close blocks while a rotation is queued", outcome, steps...)...)
+		}
+		if walClass(ferr) != "err closed" || walClass(serr) != "err closed" {
+			viols = append(viols, v("C14", "a call after Close does not return ErrClosed", outcome, steps...)...)
+		}
+		if e.d.NumEvents() != nev {
+			viols = append(viols, v("C14", "the rotation queued before Close performed I/O after Close had returned", outcome, steps...)...)
+		}
+		return outcome, viols
 	}})
 	// ---- C06 / C13: a reader pinning an old state across truncations ----
 	for _, kind := range []string{"head", "tail"} {
@@ -916,6 +956,49 @@ func stableConcReal(rounds int) (calls int, viols []Violation) {
 		}
 		wal.SetVerifYield(nil)
 	}
+	// a value handed out by Get belongs to the caller: it must not change under later stable writes, appends,
+	// rotations and truncations (BoltDB only guarantees its own slices until the end of the transaction)
+	{
+		bigVal := bytes.Repeat([]byte("server-a."), 150) // 1350 bytes: the stable bucket is no longer stored inline
+		for k := 0; k < 6; k++ {
+			w.Set([]byte(fmt.Sprintf("pad-%d", k)), bytes.Repeat([]byte{byte('a' + k)}, 300))
+		}
+		if err := w.Set([]byte("big"), bigVal); err != nil {
+			add("Set failed", err.Error())
+		}
+		heldBig, err1 := w.Get([]byte("big"))
+		heldPad, err2 := w.Get([]byte("pad-3"))
+		wantPad := bytes.Repeat([]byte{byte('a' + 3)}, 300)
+		if err1 != nil || err2 != nil || !bytes.Equal(heldBig, bigVal) || !bytes.Equal(heldPad, wantPad) {
+			add("Get does not return the value of the latest Set", fmt.Sprintf("err=%v,%v len=%d,%d", err1, err2, len(heldBig), len(heldPad)))
+		}
+		next := uint64(1)
+		for round := 0; round < 8; round++ {
+			w.SetUint64([]byte("counter"), uint64(round))
+			w.Set([]byte(fmt.Sprintf("pad-%d", round%6)), bytes.Repeat([]byte{byte('A' + round)}, 280+round))
+			var logs []*raft.Log
+			for j := 0; j < 6; j++ {
+				logs = append(logs, &raft.Log{Index: next, Term: 1, Data: bytes.Repeat([]byte{byte(next)}, 900)})
+				next++
+			}
+			if err := w.StoreLogs(logs); err != nil {
+				add("StoreLogs failed", err.Error())
+				break
+			}
+			w.DeleteRange(math.MaxUint64, math.MaxUint64)
+			if round == 5 {
+				w.DeleteRange(1, 10)
+			}
+			calls += 4
+		}
+		if !bytes.Equal(heldBig, bigVal) || !bytes.Equal(heldPad, wantPad) {
+			add("a value returned by Get changed after later stable writes and log operations", fmt.Sprintf("held value of key big now starts %q (was %q); pad-3 now starts %q", clipS(string(heldBig)), clipS(string(bigVal)), clipS(string(heldPad))),
+				"Set of 6 values of 300 bytes and one of 1350 bytes", "v := Get(big) — held by the caller", "8 rounds of SetUint64, Set(other key), StoreLogs of 6 x 900 bytes (rotations), one head truncation", "compare v with what was set")
+		}
+		if cur, err := w.Get([]byte("big")); err != nil || !bytes.Equal(cur, bigVal) {
+			add("log operations or writes to other keys altered a stable key", fmt.Sprintf("Get(big): err=%v len=%d", err, len(cur)))
+		}
+	}
 	const G = 6
 	final := make([]uint64, G)
 	finalB := make([]string, G)
@@ -992,6 +1075,204 @@ func stableConcReal(rounds int) (calls int, viols []Violation) {
 	return calls, viols
 }
 
+func init() {
+	extraCommands["concsched"] = func(args []string) int {
+		seed := atoiU(args[0])
+		idx := int(atoiU(args[1]))
+		simfs.OpenWriterDirSyncs = probeOpenWriterDirSyncs()
+		scheds := concSchedules(seed)
+		if idx >= len(scheds) {
+			return 2
+		}
+		outcome, viols := scheds[idx].run()
+		b, _ := json.Marshal(map[string]any{"outcome": outcome, "viols": viols})
+		fmt.Println("CONCSCHED " + string(b))
+		return 0
+	}
+}
+
+func runScheduleInChild(seed uint64, idx int, s schedule) (string, []Violation) {
+	cmd := exec.Command(os.Args[0], "concsched", fmt.Sprint(seed), fmt.Sprint(idx))
+	var out bytes.Buffer
+	cmd.Stdout = &out
+	cmd.Stderr = &out
+	done := make(chan error, 1)
+	if err := cmd.Start(); err != nil {
+		return "setup-err " + err.Error(), nil
+	}
+	go func() { done <- cmd.Wait() }()
+	var werr error
+	select {
+	case werr = <-done:
+	case <-time.After(90 * time.Second):
+		cmd.Process.Kill()
+		<-done
+		return "blocked", []Violation{{Property: s.props[0], What: "forced schedule did not finish (deadlock)", Detail: s.name, Ops: []string{"schedule " + s.name}}}
+	}
+	txt := out.String()
+	if i := strings.Index(txt, "CONCSCHED "); i >= 0 && werr == nil {
+		var r struct {
+			Outcome string      `json:"outcome"`
+			Viols   []Violation `json:"viols"`
+		}
+		line := txt[i+len("CONCSCHED "):]
+		if j := strings.IndexByte(line, '\n'); j >= 0 {
+			line = line[:j]
+		}
+		if json.Unmarshal([]byte(line), &r) == nil {
+			return r.Outcome, r.Viols
+		}
+	}
+	// the child died: a panic no caller can recover from
+	detail := txt
+	if i := strings.Index(detail, "panic:"); i >= 0 {
+		detail = detail[i:]
+	}
+	if len(detail) > 1500 {
+		detail = detail[:1500]
+	}
+	var vs []Violation
+	for _, p := range s.props {
+		if p == "C14" || p == "C06" {
+			vs = append(vs, Violation{Property: p, What: "the process died (panic outside any caller's reach) during a forced schedule", Detail: detail,
+				Ops: []string{"forced schedule " + s.name + " (harness concsched " + fmt.Sprint(seed, " ", idx) + ")"}})
+		}
+	}
+	return "process-died", vs
+}
+
+// poolStress: entries on both sides of the 64 KiB pooled read buffer read sequentially (returned logs are held and must
+// not change when later reads reuse buffers: C12) and by overlapping readers with no writer at all (every read must
+// return exactly the stored entry: C06, C12).
+func poolStress(seed uint64, iters int) (reads int, viols []Violation) {
+	r := NewRng(seed ^ 0x9001)
+	d := simfs.New()
+	w, err := openWalOn(d, 1<<20, nil)
+	if err != nil {
+		return 0, []Violation{{Property: "C06", What: "setup failed", Detail: err.Error()}}
+	}
+	defer w.Close()
+	sizes := []int{100, 65536 - 40, 7, 65536 - 8, 65536, 30, 70 << 10, 65536 + 9, 200 << 10, 1, 32 << 10, 100 << 10}
+	var want []*raft.Log
+	for i, sz := range sizes {
+		l := &raft.Log{Index: uint64(i + 1), Term: uint64(100 + i), Type: raft.LogCommand, Data: r.Bytes(sz), Extensions: r.Bytes(i % 3)}
+		if len(l.Extensions) == 0 {
+			l.Extensions = nil
+		}
+		want = append(want, l)
+		if err := w.StoreLogs([]*raft.Log{l}); err != nil {
+			return 0, []Violation{{Property: "C15", What: "StoreLogs refused an entry far below the maximum size", Detail: fmt.Sprintf("size %d: %v", sz, err)}}
+		}
+	}
+	w.DeleteRange(math.MaxUint64, math.MaxUint64)
+	same := func(a, b *raft.Log) bool {
+		return a.Index == b.Index && a.Term == b.Term && a.Type == b.Type && bytes.Equal(a.Data, b.Data) && bytes.Equal(a.Extensions, b.Extensions)
+	}
+	desc := []string{fmt.Sprintf("12 entries of sizes %v stored one per call, segment size 1 MiB", sizes)}
+	// sequential: hold what GetLog returned, keep reading, compare
+	held := make([]*raft.Log, len(want))
+	for round := 0; round < 3; round++ {
+		for _, k := range r.perm(len(want)) {
+			var l raft.Log
+			if err := w.GetLog(uint64(k+1), &l); err != nil {
+				return reads, append(viols, Violation{Property: "C15", What: "a stored entry cannot be read back", Detail: fmt.Sprintf("GetLog(%d) size %d: %v", k+1, sizes[k], err), Ops: desc})
+			}
+			reads++
+			if !same(&l, want[k]) {
+				viols = append(viols, Violation{Property: "C12", What: "GetLog does not return the stored entry", Detail: fmt.Sprintf("GetLog(%d) (size %d) returned index %d term %d len %d", k+1, sizes[k], l.Index, l.Term, len(l.Data)), Ops: append(desc, "sequential reads")})
+				return reads, viols
+			}
+			if held[k] == nil {
+				held[k] = &l
+			}
+		}
+		for k, h := range held {
+			if h != nil && !same(h, want[k]) {
+				viols = append(viols, Violation{Property: "C12", What: "a log returned by GetLog changed when later reads reused internal buffers", Detail: fmt.Sprintf("entry %d (size %d)", k+1, sizes[k]), Ops: append(desc, "sequential reads, results held")})
+				return reads, viols
+			}
+		}
+	}
+	// overlapping readers, no writer
+	var wg sync.WaitGroup
+	var vmu sync.Mutex
+	var n int64
+	G := 2 * runtime.GOMAXPROCS(0)
+	if G < 8 {
+		G = 8
+	}
+	for g := 0; g < G; g++ {
+		wg.Add(1)
+		gr := r.Fork()
+		go func(g int) {
+			defer wg.Done()
+			defer func() {
+				if x := recover(); x != nil {
+					vmu.Lock()
+					viols = append(viols, Violation{Property: "C06", What: "a concurrent read panicked", Detail: fmt.Sprint(x), Ops: desc})
+					vmu.Unlock()
+				}
+			}()
+			for i := 0; i < iters; i++ {
+				k := gr.Intn(len(want))
+				var l raft.Log
+				err := w.GetLog(uint64(k+1), &l)
+				atomic.AddInt64(&n, 1)
+				if err != nil || !same(&l, want[k]) {
+					vmu.Lock()
+					if len(viols) < 4 {
+						det := fmt.Sprintf("GetLog(%d) (size %d): err=%v, returned index %d term %d len %d", k+1, sizes[k], err, l.Index, l.Term, len(l.Data))
+						ops := append(desc, fmt.Sprintf("%d goroutines reading random indexes concurrently, no writer, no truncation", G))
+						viols = append(viols, Violation{Property: "C06", What: "an entry that stays in the log was not returned intact to a concurrent reader", Detail: det, Ops: ops})
+						viols = append(viols, Violation{Property: "C12", What: "GetLog returned something other than the stored entry while other reads reused pooled buffers", Detail: det, Ops: ops})
+					}
+					vmu.Unlock()
+					return
+				}
+			}
+		}(g)
+	}
+	wg.Wait()
+	return reads + int(n), viols
+}
+
+func init() {
+	extraCommands["stablesub"] = func(args []string) int {
+		n, viols := stableConcReal(int(atoiU(args[0])))
+		b, _ := json.Marshal(map[string]any{"n": n, "viols": viols})
+		fmt.Println("STABLESUB " + string(b))
+		return 0
+	}
+}
+
+// stableInChild: a stale pointer into BoltDB's memory map can fault instead of reading wrong bytes; the check runs in a
+// child process so that this, too, is a finding
+func stableInChild(rounds int) (int, []Violation) {
+	cmd := exec.Command(os.Args[0], "stablesub", fmt.Sprint(rounds))
+	var out bytes.Buffer
+	cmd.Stdout = &out
+	cmd.Stderr = &out
+	err := cmd.Run()
+	txt := out.String()
+	if i := strings.Index(txt, "STABLESUB "); i >= 0 && err == nil {
+		var r struct {
+			N     int         `json:"n"`
+			Viols []Violation `json:"viols"`
+		}
+		line := txt[i+len("STABLESUB "):]
+		if j := strings.IndexByte(line, '\n'); j >= 0 {
+			line = line[:j]
+		}
+		if json.Unmarshal([]byte(line), &r) == nil {
+			return r.N, r.Viols
+		}
+	}
+	if len(txt) > 1500 {
+		txt = txt[:1500]
+	}
+	return 0, []Violation{{Property: "C08", What: "the process died while using values returned by the stable store", Detail: txt, Ops: []string{"harness stablesub " + fmt.Sprint(rounds)}}}
+}
+
 func suiteConc(seed uint64, tier string) *Report {
 	rep := newReport("conc", seed, tier)
 	rep.Rule = "forced schedules: each LogStore/StableStore call parked at its post-closed-check yield point (and between loading the state pointer and taking the reference) while Close runs to completion; a writer parked waiting for a rotation while Close runs; readers pinned inside a file read across head and tail truncations; a reader parked before taking its reference across a head truncation; readers probing from inside the VFS write/fsync of an append — outcome classified (value / ErrClosed / other error / panic / blocked). Free-running stress: N readers (FirstIndex, LastIndex, GetLog around the live range) against a writer appending with rotation, truncating head and tail and re-appending different content; every read must match one of the log versions current between its start and its end (+1 for the operation in flight). Non-trivial = schedules that reached their park point; distinct by schedule name."
@@ -999,8 +1280,10 @@ func suiteConc(seed uint64, tier string) *Report {
 	scheds := concSchedules(seed)
 	shapes := map[string]bool{}
 	mc := &Case{ID: fmt.Sprintf("conc-model-%d", seed), Props: []string{"C06", "C14"}, NonTrivial: true, Shape: "conc-model"}
-	for _, s := range scheds {
-		outcome, viols := s.run()
+	for si, s := range scheds {
+		// each forced schedule runs in a child process: a panic in a background goroutine of the WAL (which nothing
+		// can recover) must not take the suite down, it is a finding
+		outcome, viols := runScheduleInChild(seed, si, s)
 		if s.model != "" && s.implCanon != nil && !strings.Contains(outcome, "not-parked") && !strings.HasPrefix(outcome, "setup-err") {
 			mc.Ops = append(mc.Ops, s.model)
 			mc.Impl = append(mc.Impl, s.implCanon(outcome))
@@ -1055,11 +1338,22 @@ func suiteConc(seed uint64, tier string) *Report {
 		rep.Violations = append(rep.Violations, viols...)
 	}
 	{
+		iters := 400
+		if tier == "thorough" {
+			iters = 6000
+		}
+		n, viols := poolStress(seed, iters)
+		rep.Ops += n
+		rep.Dist["pool-boundary-reads"] = n
+		rep.Cases++
+		rep.Violations = append(rep.Violations, viols...)
+	}
+	{
 		rounds := 6
 		if tier == "thorough" {
 			rounds = 60
 		}
-		n, viols := stableConcReal(rounds)
+		n, viols := stableInChild(rounds)
 		rep.Ops += n
 		rep.Dist["stable-concurrent-realfs"] = n
 		rep.Cases += rounds + 1
